@@ -33,11 +33,50 @@ Definition s_bucket : str := lit "bucket".
 Definition s_sum : str := lit "sum".
 Definition s_count : str := lit "count".
 
-(* quarter-unit "floats": fle = f64 <=, fadd = f64 + (exact on this domain) *)
+(* ---- the number domain of samples, sums and gauge values: exact quarter-unit numbers extended with the
+   IEEE special values.  A number is the SUM it stands for, kept as (exact finite part, how many +inf,
+   -inf, NaN terms went into it); the double it denotes is its class [cls]:
+     NaN  if a NaN went in, or both a +inf and a -inf (inf + -inf = NaN);
+     +inf / -inf  if only that infinity went in (inf + finite = inf);
+     else the exact finite part.
+   Addition is componentwise, hence a commutative monoid, and [cls_xadd] (ProofsSpec.v) shows that it is
+   IEEE addition on the classes, finite + finite being exact on the quarter-unit domain (assumption). *)
+Record xnum := { x_fin : Z; x_pinf : N; x_ninf : N; x_nan : N }.
+Definition xfin (z : Z) : xnum := {| x_fin := z; x_pinf := 0; x_ninf := 0; x_nan := 0 |}.
+Definition xzero : xnum := xfin 0.
+Definition xpinf : xnum := {| x_fin := 0; x_pinf := 1; x_ninf := 0; x_nan := 0 |}.
+Definition xninf : xnum := {| x_fin := 0; x_pinf := 0; x_ninf := 1; x_nan := 0 |}.
+Definition xnan : xnum := {| x_fin := 0; x_pinf := 0; x_ninf := 0; x_nan := 1 |}.
+Definition xadd (a b : xnum) : xnum :=
+  {| x_fin := (x_fin a + x_fin b)%Z; x_pinf := x_pinf a + x_pinf b; x_ninf := x_ninf a + x_ninf b; x_nan := x_nan a + x_nan b |}.
+Definition xneg (a : xnum) : xnum :=
+  {| x_fin := (- x_fin a)%Z; x_pinf := x_ninf a; x_ninf := x_pinf a; x_nan := x_nan a |}.
+Inductive xclass := CNaN | CNInf | CFin (z : Z) | CPInf.
+Definition cls (a : xnum) : xclass :=
+  if negb (x_nan a =? 0) || (negb (x_pinf a =? 0) && negb (x_ninf a =? 0)) then CNaN
+  else if negb (x_pinf a =? 0) then CPInf
+  else if negb (x_ninf a =? 0) then CNInf
+  else CFin (x_fin a).
+(* f64 <= *)
+Definition xle (a b : xnum) : bool :=
+  match cls a, cls b with
+  | CNaN, _ | _, CNaN => false
+  | CNInf, _ => true
+  | _, CPInf => true
+  | CFin x, CFin y => (x <=? y)%Z
+  | _, _ => false
+  end.
+Definition xsame (a b : xnum) : bool :=
+  match cls a, cls b with
+  | CNaN, CNaN | CNInf, CNInf | CPInf, CPInf => true
+  | CFin x, CFin y => (x =? y)%Z
+  | _, _ => false
+  end.
+
 Definition ZF : H.FloatOps :=
-  {| H.F := Z; H.fle := Z.leb; H.fadd := Z.add; H.fzero := 0%Z; H.fone := 4%Z; H.fpinf := 0%Z; H.fninf := 0%Z;
-     H.fisinf := fun _ => false; H.fwithin := fun _ _ _ => true; H.fsame := Z.eqb;
-     H.fclamp01 := fun x => Z.max 0 (Z.min 4 x) |}.
+  {| H.F := xnum; H.fle := xle; H.fadd := xadd; H.fzero := xzero; H.fone := xfin 4; H.fpinf := xpinf; H.fninf := xninf;
+     H.fisinf := fun a => match cls a with CPInf | CNInf => true | _ => false end;
+     H.fwithin := fun _ _ _ => true; H.fsame := xsame; H.fclamp01 := fun x => x |}.
 
 Inductive mkind := KC | KG | KR | KH.      (* counter, gauge, raw-bits gauge, histogram *)
 Definition mkind_eqb (a b : mkind) : bool :=
@@ -56,9 +95,9 @@ Record cfg := {
 Inductive op :=
 | Register (i : N)
 | Inc (i : N) (v : N) | Abs (i : N) (v : N)
-| GSet (i : N) (v : Z) | GInc (i : N) (v : Z) | GDec (i : N) (v : Z)
+| GSet (i : N) (v : xnum) | GInc (i : N) (v : xnum) | GDec (i : N) (v : xnum)
 | GBits (i : N) (b : N)                         (* gauge.set(f64::from_bits(b)) on a raw gauge *)
-| Rec (i : N) (v : Z)                           (* histogram.record *)
+| Rec (i : N) (v : xnum)                           (* histogram.record *)
 | Describe (k : mkind) (name : str) (unit : option unit_t) (text : str)
 | Upkeep
 | Render.
@@ -109,29 +148,30 @@ Definition sname (k : key) : str := sanitize_metric_name (k_name k).
 Definition parts (c : cfg) (k : key) : parts_t := (sname k, key_labels (c_globals c) (k_labels k)).
 
 (* ---- distributions *)
-Inductive dist := DHist (h : H.hist ZF) | DSumm (n : N) (s : Z).
+Inductive dist := DHist (h : H.hist ZF) | DSumm (n : N) (s : xnum).
 
-Definition dbuilder_of (c : cfg) : H.dbuilder ZF := H.db_new ZF true true (c_buckets c) (c_overrides c).
+Definition dbuilder_of (c : cfg) : H.dbuilder ZF :=
+  H.db_new ZF true true (option_map (map xfin) (c_buckets c)) (map (fun mb => (fst mb, map xfin (snd mb))) (c_overrides c)).
 (* DistributionBuilder::get_distribution (the builder rejects empty bound lists, so hist_new succeeds) *)
 Definition new_dist (c : cfg) (name : str) : dist :=
   match H.get_distribution ZF (dbuilder_of c) name with
-  | Some b => match H.hist_new ZF b with Some h => DHist h | None => DSumm 0 0 end
-  | None => DSumm 0 0
+  | Some b => match H.hist_new ZF b with Some h => DHist h | None => DSumm 0 xzero end
+  | None => DSumm 0 xzero
   end.
 (* Distribution::record_samples *)
-Definition record_samples (d : dist) (bag : list Z) : dist :=
+Definition record_samples (d : dist) (bag : list xnum) : dist :=
   match d with
   | DHist h => DHist (H.record_many ZF h bag)
-  | DSumm n s => let '(n', s') := fold_left (fun '(n, s) x => (n + 1, (s + x)%Z)) bag (n, s) in DSumm n' s'
+  | DSumm n s => let '(n', s') := fold_left (fun '(n, s) x => (n + 1, xadd s x)) bag (n, s) in DSumm n' s'
   end.
 
 Definition two64 : N := 18446744073709551616.
 
 Record st := {
   ctr : list (N * N);                            (* counter handles: key index -> value *)
-  gau : list (N * Z);                            (* gauge handles *)
+  gau : list (N * xnum);                            (* gauge handles *)
   raw : list (N * N);                            (* raw gauges: bit pattern *)
-  pend : list (N * list Z);                      (* histogram handles: pending samples, push order *)
+  pend : list (N * list xnum);                      (* histogram handles: pending samples, push order *)
   dists : list (parts_t * dist);                 (* Inner.distributions *)
   descr : list (str * (str * option unit_t)) }.  (* Inner.descriptions *)
 Definition init : st := {| ctr := []; gau := []; raw := []; pend := []; dists := []; descr := [] |}.
@@ -146,12 +186,12 @@ Definition getd {V} (i : N) (l : list (N * V)) (d : V) : V := match aget N.eqb i
 Definition touch {V} (i : N) (d : V) (l : list (N * V)) : list (N * V) := aset N.eqb i (getd i l d) l.
 
 (* the loop body of drain_histograms_to_distributions for one handle *)
-Definition record_into (c : cfg) (d : list (parts_t * dist)) (k : key) (bag : list Z) : list (parts_t * dist) :=
+Definition record_into (c : cfg) (d : list (parts_t * dist)) (k : key) (bag : list xnum) : list (parts_t * dist) :=
   let p := parts c k in
   let e := match aget parts_eqb p d with Some e => e | None => new_dist c (fst p) end in
   aset parts_eqb p (record_samples e bag) d.
 
-Definition drain_all (c : cfg) (l : list (N * list Z)) (d : list (parts_t * dist)) : list (parts_t * dist) :=
+Definition drain_all (c : cfg) (l : list (N * list xnum)) (d : list (parts_t * dist)) : list (parts_t * dist) :=
   fold_left (fun d ib => match key_at c (fst ib) with Some k => record_into c d k (snd ib) | None => d end) l d.
 
 Definition drain (c : cfg) (s : st) : st :=
@@ -160,7 +200,10 @@ Definition drain (c : cfg) (s : st) : st :=
      dists := drain_all c (pend s) (dists s); descr := descr s |}.
 
 (* ---- structured rendering *)
-Inductive sval := VInt (n : N) | VZ (z : Z) | VB (bits : N) | VQ.
+Inductive sval := VInt (n : N) | VZ (z : Z) | VB (bits : N) | VQ | VPInf | VNInf | VNaN.
+(* how a number is shown: the double it denotes *)
+Definition xval (a : xnum) : sval :=
+  match cls a with CFin z => VZ z | CPInf => VPInf | CNInf => VNInf | CNaN => VNaN end.
 Inductive extra := XNone | XLe (b : Z) | XInf | XQuant (bits : N).
 Record asample := {
   a_fam : str;               (* name on the family's TYPE line *)
@@ -190,6 +233,9 @@ Definition sf_of_bits (z : Z) : spec_float :=
 Definition canon (b : N) : sval :=
   match sf_of_bits (Z.of_N b) with
   | S754_zero false => VZ 0
+  | S754_infinity false => VPInf
+  | S754_infinity true => VNInf
+  | S754_nan => VNaN
   | S754_finite s m e =>
       let e2 := (e + 2)%Z in
       let q := if (0 <=? e2)%Z then (if (e2 <=? 60)%Z then Some (Zpos m * 2 ^ e2)%Z else None)
@@ -211,13 +257,13 @@ Definition help_unit (c : cfg) (s : st) (name : str) : option str * option unit_
 Definition dist_samples (c : cfg) (mk : option str -> extra -> sval -> asample) (d : dist) : list asample :=
   match d with
   | DHist h =>
-      map (fun bc => mk (Some s_bucket) (XLe (fst bc)) (VInt (snd bc))) (combine (H.h_bounds ZF h) (H.h_buckets ZF h))
+      map (fun bc => mk (Some s_bucket) (XLe (x_fin (fst bc))) (VInt (snd bc))) (combine (H.h_bounds ZF h) (H.h_buckets ZF h))
       ++ [mk (Some s_bucket) XInf (VInt (H.h_count ZF h));
-          mk (Some s_sum) XNone (VZ (H.h_sum ZF h));
+          mk (Some s_sum) XNone (xval (H.h_sum ZF h));
           mk (Some s_count) XNone (VInt (H.h_count ZF h))]
   | DSumm n sm =>
       map (fun q => mk None (XQuant q) VQ) (c_quantiles c)
-      ++ [mk (Some s_sum) XNone (VZ sm); mk (Some s_count) XNone (VInt n)]
+      ++ [mk (Some s_sum) XNone (xval sm); mk (Some s_count) XNone (VInt n)]
   end.
 
 Definition render_key (c : cfg) (s : st) (i : N) (k : key) : list asample :=
@@ -228,7 +274,7 @@ Definition render_key (c : cfg) (s : st) (i : N) (k : key) : list asample :=
   | KC => match aget N.eqb i (ctr s) with
           | Some v => [mk_sample name help u 0 labels None XNone (VInt v)] | None => [] end
   | KG => match aget N.eqb i (gau s) with
-          | Some v => [mk_sample name help u 1 labels None XNone (VZ v)] | None => [] end
+          | Some v => [mk_sample name help u 1 labels None XNone (xval v)] | None => [] end
   | KR => match aget N.eqb i (raw s) with
           | Some b => [mk_sample name help u 1 labels None XNone (canon b)] | None => [] end
   | KH => match aget N.eqb i (pend s) with
@@ -279,14 +325,14 @@ Definition step (c : cfg) (s : st) (o : op) : st * option (list asample) :=
               if negb (op_kind_ok (k_kind k) o) then (s, None) else
               (match o, k_kind k with
                | Register _, KC => upd_ctr s (touch i 0)
-               | Register _, KG => upd_gau s (touch i 0%Z)
+               | Register _, KG => upd_gau s (touch i xzero)
                | Register _, KR => upd_raw s (touch i 0)
                | Register _, KH => upd_pend s (touch i [])
                | Inc _ v, _ => upd_ctr s (fun l => aset N.eqb i ((getd i l 0 + v) mod two64) l)
                | Abs _ v, _ => upd_ctr s (fun l => aset N.eqb i (N.max (getd i l 0) v) l)
                | GSet _ v, _ => upd_gau s (aset N.eqb i v)
-               | GInc _ v, _ => upd_gau s (fun l => aset N.eqb i (getd i l 0 + v)%Z l)
-               | GDec _ v, _ => upd_gau s (fun l => aset N.eqb i (getd i l 0 - v)%Z l)
+               | GInc _ v, _ => upd_gau s (fun l => aset N.eqb i (xadd (getd i l xzero) v) l)
+               | GDec _ v, _ => upd_gau s (fun l => aset N.eqb i (xadd (getd i l xzero) (xneg v)) l)
                | GBits _ b, _ => upd_raw s (aset N.eqb i b)
                | Rec _ v, _ => upd_pend s (fun l => aset N.eqb i (getd i l [] ++ [v]) l)
                | _, _ => s
